@@ -283,6 +283,19 @@ func TestCheck(t *testing.T) {
 		rng := r.Rand("v6nc", i)
 		judge6(r, "noncanon", nonCanon6(rng))
 	}
+	// typed option codes without a generator: arbitrary payloads, the accepted ones must be fixpoints
+	k0 := 0
+	for _, c := range v6util.SortedCodes(typed) {
+		if gen6.HasGenerator(c) {
+			continue
+		}
+		for j := 0; j < r.Pick(2000, 40000); j++ {
+			if r.Mine(k0) {
+				judge6(r, "untyped", gen6.Untyped(r.Rand(fmt.Sprintf("untyped%d", c), j), c))
+			}
+			k0++
+		}
+	}
 	// DHCPv6: generated messages and mutants that stay acceptable
 	n6g := r.Pick(40000, 3000000)
 	var prev6 []byte
